@@ -212,6 +212,28 @@ func (ce *clauseEnv) tr(x *SX, bound map[string]bool, old bool) *SX {
 		return out
 	case "_":
 		return x
+	case "codecOf":
+		if len(x.List) == 2 && !x.List[1].IsLst {
+			h := ce.tr(x.List[1], bound, old).String()
+			if en, ok := ce.st.encs[h]; ok {
+				return atom(en[1])
+			}
+			panic(unsupported{"(codecOf X): X is not a tracked encoder", token.NoPos})
+		}
+	case "content", "encoded":
+		// (content buf): what has been written to the buffer variable; (encoded enc): how many Encode calls the encoder made
+		if len(x.List) == 2 && !x.List[1].IsLst {
+			h := ce.tr(x.List[1], bound, old).String()
+			if c, ok := ce.st.bufs[h]; ok {
+				if x.head() == "content" {
+					return atom(c)
+				}
+			}
+			if en, ok := ce.st.encs[h]; ok && x.head() == "encoded" {
+				return atom(en[2])
+			}
+			panic(unsupported{"(" + x.head() + " X): X is not a tracked buffer/encoder: " + x.String(), token.NoPos})
+		}
 	case "heap":
 		// (heap Type.Field): the field's array itself (current heap, or the entry heap under (old ...))
 		if len(x.List) == 2 {
